@@ -2,6 +2,7 @@ package props
 
 import (
 	"fmt"
+	"io"
 	"math"
 	"os"
 	"path/filepath"
@@ -319,6 +320,27 @@ func c11Run(c *core.Ctx, idx int) {
 
 		return true
 	}
+	// A scanner over an arbitrary reader (data arriving in chunks of 1..7 bytes)
+	// yields the same sequence as well.
+	for i := range contents {
+		rd := &c11ChunkReader{data: []byte(contents[i]), rng: c.Rng}
+		sc := filterlist.NewRuleScanner(rd, ids[i], ignoreCosmetic)
+		var got []c11Entry
+		for sc.Scan() {
+			r, idx := sc.Rule()
+			got = append(got, c11Entry{Kind: c11Kind(r), Text: r.Text(), List: r.GetFilterListID(), Idx: int64(int32(ids[i]))<<32 | int64(idx)&0xFFFFFFFF})
+		}
+		ref := c11Reference(contents[i], ids[i], ignoreCosmetic)
+		c.Eval(1)
+		same := len(got) == len(ref)
+		for k := 0; same && k < len(got); k++ {
+			same = got[k] == ref[k]
+		}
+		if !same {
+			c.Violation("scan-sequence:chunked-reader", nil, wit("chunked reader", fmt.Sprintf("list %d: scanned %d rules, reference %d", ids[i], len(got), len(ref))),
+				"RuleScanner over a reader that returns 1..7 bytes per call differs from the reference parse (list %d: %d vs %d rules)", ids[i], len(got), len(ref))
+		}
+	}
 	okS := check("string", strStorage)
 	okF := check("file", fileStorage)
 	if len(want) > 0 {
@@ -367,7 +389,7 @@ func c11Run(c *core.Ctx, idx int) {
 }
 
 func init() {
-	sizes := map[core.Tier]int{core.Quick: 3000, core.Thorough: 100000}
+	sizes := map[core.Tier]int{core.Quick: 2000, core.Thorough: 100000}
 	core.Register(&core.Prop{
 		ID:    "C11",
 		Level: "exploration",
@@ -380,4 +402,27 @@ func init() {
 		Cases: func(t core.Tier) int { return sizes[t] },
 		Run:   c11Run,
 	})
+}
+
+// c11ChunkReader returns the data in chunks of 1..7 bytes.
+type c11ChunkReader struct {
+	data []byte
+	rng  interface{ Intn(int) int }
+}
+
+func (r *c11ChunkReader) Read(p []byte) (int, error) {
+	if len(r.data) == 0 {
+		return 0, io.EOF
+	}
+	n := 1 + r.rng.Intn(7)
+	if n > len(r.data) {
+		n = len(r.data)
+	}
+	if n > len(p) {
+		n = len(p)
+	}
+	copy(p, r.data[:n])
+	r.data = r.data[n:]
+
+	return n, nil
 }
